@@ -73,6 +73,8 @@ def first_pass_menu(KR, KQ):
     if KQ >= 10:
         m.append((0, False, [3, 4], [5, 6]))                    # middle of a long molecule: both flanks become fragments
         m.append((0, True, [3, 4], [6, 5]))
+        m.append((0, False, [2, 3], [3, 4]))                    # near the start: only the right flank is long enough
+        m.append((0, False, [4, 5], [7, 8]))                    # near the end: only the left flank is long enough
     return m
 
 
@@ -232,7 +234,7 @@ MULTIPASS_BOUNDS = ("1-2 queries of 6 labels and one query of 10 labels (both fl
 def multipass_configs(tier):
     cfgs = [dict(KR=6, KQ=6, nq=1, nrefs=1), dict(KR=6, KQ=6, nq=1, nrefs=2, first=[1, 2, 3], second=[0, 1, 5])]
     cfgs.append(dict(KR=6, KQ=6, nq=2, nrefs=1, first=[0, 1, 2], second=[0, 1, 2]))
-    cfgs.append(dict(KR=6, KQ=10, nq=1, nrefs=1, first=[5, 6], second=[0, 1, 6, 7]))     # two fragments per query
+    cfgs.append(dict(KR=6, KQ=10, nq=1, nrefs=1, first=[5, 6, 7, 8], second=[0, 1, 6, 7]))     # 1-2 fragments per query
     if tier != "quick":
         cfgs.append(dict(KR=6, KQ=6, nq=2, nrefs=1, first=[0, 1, 3, 4], second=[0, 1, 2, 4], swap_ids=True))
         cfgs.append(dict(KR=6, KQ=9, nq=1, nrefs=1))
